@@ -121,6 +121,10 @@ package history
 //@   assigns h.skip
 //@   ensures h.skip
 
+// hnorm: there is an active source and the line being edited already has its undo history object
+//@ pred hnorm(h *Sources) = hcur(h) != nil && curlh(h) != nil
+//@ spec htext(h *Sources) string = str(*h.line)
+
 //@ func (*Sources).Save
 //@   props C07 C16 C01
 //@   terminates
@@ -130,6 +134,13 @@ package history
 //@   ensures [cursor] old(core.cok(h.cursor)) ==> h.cursor.pos == old(h.cursor.pos) && h.cursor.mark == old(h.cursor.mark)
 //@   ensures [cursor] h.cursor.pos == old(h.cursor.pos) || core.cclamp(h.cursor)
 //@   ensures !h.skip && !h.undoing
+//@   ensures @C07 [same-history] old(hnorm(h)) ==> curlh(h) == old(curlh(h))
+//@   ensures @C07 [skip-noop] old(h.skip) ==> allobj(x, "*lineHistory", x.items == old(x.items))
+//@   ensures @C07 [others-untouched] allobj(x, "*lineHistory", x == old(curlh(h)) || !old(allocated(x)) || x.items == old(x.items))
+//@   ensures @C07 [same-text] old(hnorm(h)) && !old(h.skip) && old(len(curlh(h).items)) > 0 && old(curlh(h).items[len(curlh(h).items) - 1].line) == htext(h) ==> len(curlh(h).items) == old(len(curlh(h).items)) && curlh(h).items[:len(curlh(h).items) - 1] == old(curlh(h).items)[:len(curlh(h).items) - 1] && curlh(h).items[len(curlh(h).items) - 1].line == htext(h)
+//@   ensures @C07 [append] old(hnorm(h)) && !old(h.skip) && !(old(len(curlh(h).items)) > 0 && old(curlh(h).items[len(curlh(h).items) - 1].line) == htext(h)) ==> len(curlh(h).items) == old(len(curlh(h).items)) - min(old(curlh(h).pos), old(len(curlh(h).items))) + 1 && curlh(h).items[:len(curlh(h).items) - 1] == old(curlh(h).items)[:len(curlh(h).items) - 1] && curlh(h).items[len(curlh(h).items) - 1].line == htext(h)
+//@   ensures @C07 [pos-reset] old(hnorm(h)) && !old(h.skip) ==> curlh(h).pos == 0
+//@   ensures @C07 [initial-kept] old(hnorm(h)) && old(len(curlh(h).items)) > 0 ==> len(curlh(h).items) > 0 && curlh(h).items[0].line == old(curlh(h).items[0].line)
 
 //@ func (*Sources).Undo
 //@   props C07 C01
@@ -138,7 +149,13 @@ package history
 //@   assigns h.skip, h.undoing, *h.line, h.cursor.pos, h.cursor.mark, mapof(h.lines), anymapof("map[int]*lineHistory"), anyof("lineHistory", "pos")
 //@   ensures [ri] allok()
 //@   ensures h.skip && h.undoing
-//@   loop 1 invariant lhok(line) && line != nil && allok()
+//@   ensures @C07 [same-history] old(hnorm(h)) ==> curlh(h) == old(curlh(h))
+//@   ensures @C07 [older] old(hnorm(h)) ==> curlh(h).pos >= old(curlh(h).pos)
+//@   ensures @C07 [shown-before] old(hnorm(h)) ==> *h.line == old(*h.line) || (curlh(h).pos >= 1 && *h.line == runes(curlh(h).items[len(curlh(h).items) - curlh(h).pos].line))
+//@   ensures @C07 [redo-can-restore] old(hnorm(h)) && *h.line != old(*h.line) ==> curlh(h).pos >= 2 && curlh(h).items[len(curlh(h).items) - curlh(h).pos + 1].line == old(htext(h))
+//@   ensures @C07 [progress] old(hnorm(h)) && old(len(curlh(h).items)) > 0 ==> curlh(h).pos > old(curlh(h).pos) || curlh(h).pos == len(curlh(h).items)
+//@   loop 1 invariant lhok(line) && line != nil && allok() && line.pos >= 0 && *h.line == old(*h.line) && (old(hnorm(h)) ==> line == old(curlh(h)) && curlh(h) == line && line.pos >= old(curlh(h).pos))
+//@   loop 1 invariant old(hnorm(h)) ==> all(k, max(len(line.items) - line.pos, 0), len(line.items) - old(curlh(h).pos), line.items[k].line == old(htext(h)))
 //@   loop 1 decreases len(line.items) - line.pos
 
 //@ func (*Sources).Redo
@@ -148,6 +165,9 @@ package history
 //@   assigns h.skip, h.undoing, *h.line, h.cursor.pos, h.cursor.mark, mapof(h.lines), anymapof("map[int]*lineHistory"), anyof("lineHistory", "pos")
 //@   ensures [ri] allok()
 //@   ensures h.skip && h.undoing
+//@   ensures @C07 [same-history] old(hnorm(h)) ==> curlh(h) == old(curlh(h))
+//@   ensures @C07 [reverses-undo] old(hnorm(h)) && old(curlh(h).pos) >= 2 ==> curlh(h).pos == old(curlh(h).pos) - 1 && *h.line == runes(curlh(h).items[len(curlh(h).items) - old(curlh(h).pos) + 1].line)
+//@   ensures @C07 [no-redo-branch] old(hnorm(h)) && old(curlh(h).pos) <= 1 ==> *h.line == old(*h.line)
 
 //@ func (*Sources).Revert
 //@   props C07 C01
